@@ -123,6 +123,8 @@ var osAllow = map[string]string{
 	"os-call|github.com/reedom/convergen/pkg/runner.Run|os.OpenFile":                "log file, C15Run",
 	"os-call|(*github.com/reedom/convergen/pkg/generator.Generator).Generate|os.WriteFile": "the output write, C15Run/C18Generate",
 	"os-call|github.com/reedom/convergen.main|os.Exit":                              "exit status",
+	"os-call|github.com/reedom/convergen/pkg/parser.blankOverlay|path/filepath.Abs": "pure path computation for the loader overlay key (reads the working directory, writes nothing)",
+	"os-call|github.com/reedom/convergen/pkg/parser.blankOverlay|path/filepath.Dir": "pure path computation",
 }
 
 func inventoryCheck(ld *sym.Loaded, kind string) (rows []string, uncovered []string) {
